@@ -145,6 +145,9 @@ func (fr *Frame) callValues(x ssa.Value, cc *ssa.CallCommon, fnv Value, args []V
 			u.oblige(fr, "nil-deref", pos, "", pc, Ne(f.T, IntLit(0)))
 		}
 	}
+	if sp := u.eng.specs.Funcs["dyn:"+typeNameFull(cc.Value.Type())]; sp != nil {
+		return fr.applySpec(sp, nil, "dyn:"+typeNameFull(cc.Value.Type()), args, cc.Signature(), st, pc, pos, resT, true)
+	}
 	return fr.havocCall("dynamic call "+sourceLine(u.eng.prog, pos), resT, args, st, pc)
 }
 
